@@ -43,6 +43,29 @@ def CmpUnbound(prog, rng):
   return p
 
 
+def CmpUnboundSharedName(prog, rng):
+  """An unbound comparison variable in a predicate that other rules call,
+  named like a variable of one of the calling rules (injection must not let
+  the caller's variable capture it)."""
+  by = {q['name']: q for q in prog['preds']}
+  cands = []
+  for pi, ri, pred, rule in _Rules(prog):
+    for callee in meta.PredsRead({'rules': [rule]}):
+      q = by.get(callee)
+      if q and not q['inline'] and q['rules'][0]['body']:
+        names = sorted(meta.gen_all_vars(rule) - meta.gen_all_vars(q['rules']))
+        if names:
+          cands.append((callee, names))
+  if not cands:
+    return None
+  callee, names = rng.choice(cands)
+  p = copy.deepcopy(prog)
+  q = [x for x in p['preds'] if x['name'] == callee][0]
+  rule = rng.choice(q['rules'])
+  rule['body'].append(Cmp(Op('<', Var(rng.choice(names)), Lit(N(1)))))
+  return p
+
+
 def NegUnbound(prog, rng):
   """A variable that occurs in the head and in a negation only."""
   edbs = [q for q in prog['preds'] if not q['rules'][0]['body'] and
@@ -132,6 +155,38 @@ def FunctorBadArg(prog, rng):
   return p
 
 
+def FunctorBadArgViaValue(prog, rng):
+  """A second argument whose key the functor does not depend on, but which a
+  predicate passed as the value of another argument does depend on."""
+  if not prog.get('makes'):
+    return None
+  p = copy.deepcopy(prog)
+  names = {q['name'] for q in p['preds']}
+  by = {q['name']: q for q in p['preds']}
+  cands = [mk for mk in p['makes'] if mk['functor'] in names and
+           len(mk['args']) == 1 and mk['args'][0]['v'] in by]
+  if not cands:
+    return None
+  mk = rng.choice(cands)
+  a = mk['args'][0]
+  twin = by[a['v']]                       # an extensional twin of the key
+  others = [q['name'] for q in p['preds'] if q['name'] != twin['name'] and
+            q['name'] != a['k'] and q['name'].startswith(a['k'] + 'T')]
+  if not others:
+    return None
+  fields = [h['f'] for h in twin['rules'][0]['head']]
+  view = Pred('View9', [Rule([(f, Var('v%d' % i), '')
+                              for i, f in enumerate(fields)],
+                             [Atom(twin['name'],
+                                   [(f, Var('v%d' % i))
+                                    for i, f in enumerate(fields)])])])
+  p['preds'].append(view)
+  p['makes'].append({'name': 'Mbad', 'functor': mk['functor'],
+                     'args': [{'k': a['k'], 'v': 'View9'},
+                              {'k': twin['name'], 'v': others[0]}]})
+  return p
+
+
 def AnnotateMissing(prog, rng):
   p = copy.deepcopy(prog)
   # @Ground of an undefined predicate declares an external table (legal);
@@ -144,6 +199,8 @@ def AnnotateMissing(prog, rng):
 
 
 OPERATORS = [('head_unbound', HeadUnbound), ('cmp_unbound', CmpUnbound),
+             ('cmp_unbound_shared_name', CmpUnboundSharedName),
+             ('functor_bad_arg_via_value', FunctorBadArgViaValue),
              ('neg_unbound', NegUnbound), ('drop_distinct', DropDistinct),
              ('inconsistent_distinct', InconsistentDistinct),
              ('no_base', NoBase), ('functor_bad_arg', FunctorBadArg),
